@@ -90,6 +90,16 @@ ITEMS = [
                   ('C10:after_a_failure_the_output_holds_a_prefix_of_what_was_to_be_written',
                    'r is Err ==> exists|k: int| 0 <= k <= s.spec_bytes().len() && final(self).output.written() == old(self).output.written() + #[trigger] s.spec_bytes().take(k)')],
          canaries=['C10:a_failed_write_is_remembered_for_the_caller']),
+    dict(src='src/lib.rs', path='fn to_io_writer_with_options/impl std::fmt::Write for Adapter/fn write_char', id='Adapter::write_char',
+         impl_header="impl<'a> Adapter<'a>", props=['C10', 'C01'],
+         rewrites=[(r'-> std::fmt::Result', '-> Result<(), FmtErr>', 1, 'R6'), (r'std::fmt::Error', 'FmtErr', None, 'R6'),
+                   (r'c\.encode_utf8\(&mut buf\)', 'char_encode_utf8(c, &mut buf)', 1, 'R8'),
+                   (r'(\w+)\.as_bytes\(\)', r'str_as_bytes(\1)', None, 'R8')],
+         ensures=[('C10:a_failed_write_is_remembered_for_the_caller', 'r is Err ==> final(self).last_err is Some'),
+                  ('C10:a_successful_write_appends_exactly_the_character', 'r is Ok ==> final(self).output.written() == old(self).output.written() + encode_utf8(seq![c]) && final(self).last_err == old(self).last_err'),
+                  ('C10:after_a_failure_the_output_holds_a_prefix_of_what_was_to_be_written',
+                   'r is Err ==> exists|k: int| 0 <= k <= encode_utf8(seq![c]).len() && final(self).output.written() == old(self).output.written() + #[trigger] encode_utf8(seq![c]).take(k)')],
+         canaries=['C10:a_failed_write_is_remembered_for_the_caller']),
     dict(src='src/lib.rs', path='fn to_io_writer_with_options', id='to_io_writer_with_options#result', props=['C10', 'C01'],
          fragment=r'match value\.serialize\(&mut ser\) \{.*\}\s*\}\s*\}', fragment_flags='S',
          wrapper="fn io_writer_result_fragment<'a>(res: Result<(), SerErr>, adapter: &mut Adapter<'a>) -> Result<(), SerErr> { {FRAG} }",
